@@ -36,6 +36,12 @@
 //!     (body none|"content/type" "bytes" EXEC)   `receive_batch_body` (+ execute when EXEC = 1)
 //!     (qs "bytes")                              `parse_query_string` (+ execute)
 //!     (ws new|legacy ("frame bytes" …))         `WebSocket::new` over these client frames
+//!   stream `numbers`
+//!     (num TYPE POS VIA "text")   a number text offered to a position of the built-in numeric
+//!         input type TYPE (i8 … NonZeroUsize | f32 | f64 | ID), POS = arg | list | obj (argument,
+//!         list element, input-object field), VIA = lit (document literal) | var (JSON variable in
+//!         a request body decoded by `receive_body`) → (ok "value as the resolver saw it") | ok | err
+//!     (numtypes)                  → (types "i8" …) the types the probe schema covers
 //!   Output of docs/transport cases: ok | err | (panic "file") | (abort SIG) | (timeout)
 //!   (`err` = a clean error: Err(..) of the decoder or a response with errors; for `ws` the
 //!   connection having been closed by the server).
@@ -619,11 +625,192 @@ fn run_ws(a: &[Sexp]) -> Option<Sexp> {
     })
 }
 
+// ------------------------------------------------------------------ numbers
+//
+// One probe object per built-in numeric input type (the twenty integer scalars of
+// src/types/external/{integers,non_zero_integers}.rs, f32, f64, ID): the type as an argument, as
+// the element of a list argument and as a field of an input object.  The root field is called
+// like the Rust type; the Lean judge compares `NUM_TYPES` with the source-derived tables
+// (`(numtypes)` case), so a numeric scalar added to the source without a probe here is noticed.
+
+trait Show {
+    fn show(&self) -> String;
+}
+
+macro_rules! show_int {
+    ($($t:ident),*) => { $( impl Show for $t { fn show(&self) -> String { self.to_string() } } )* };
+}
+
+use std::num::{
+    NonZeroI8, NonZeroI16, NonZeroI32, NonZeroI64, NonZeroIsize, NonZeroU8, NonZeroU16, NonZeroU32, NonZeroU64, NonZeroUsize,
+};
+
+show_int!(
+    i8, i16, i32, i64, isize, u8, u16, u32, u64, usize, NonZeroI8, NonZeroI16, NonZeroI32, NonZeroI64, NonZeroIsize, NonZeroU8, NonZeroU16,
+    NonZeroU32, NonZeroU64, NonZeroUsize
+);
+
+// floats are never printed (both sides would have to format them alike)
+impl Show for f32 {
+    fn show(&self) -> String {
+        "f".into()
+    }
+}
+impl Show for f64 {
+    fn show(&self) -> String {
+        "f".into()
+    }
+}
+impl Show for ID {
+    fn show(&self) -> String {
+        self.0.clone()
+    }
+}
+
+macro_rules! num_schema {
+    ($( ($name:literal, $T:ident, $P:ident, $In:ident) ),* $(,)?) => {
+        $(
+            #[derive(InputObject)]
+            struct $In {
+                f: Option<$T>,
+            }
+            struct $P;
+            #[Object]
+            impl $P {
+                async fn a(&self, v: Option<$T>) -> Option<String> {
+                    v.map(|x| x.show())
+                }
+                async fn l(&self, v: Option<Vec<$T>>) -> Option<String> {
+                    v.map(|xs| xs.iter().map(|x| x.show()).collect::<Vec<_>>().join(","))
+                }
+                async fn o(&self, v: Option<$In>) -> Option<String> {
+                    v.and_then(|o| o.f).map(|x| x.show())
+                }
+            }
+        )*
+        pub struct NQ;
+        #[Object]
+        impl NQ {
+            $(
+                #[graphql(name = $name)]
+                async fn $P(&self) -> $P {
+                    $P
+                }
+            )*
+        }
+        const NUM_TYPES: &[&str] = &[$($name),*];
+        /// GraphQL names of the scalar and of the probe's input object
+        fn num_gql(ty: &str) -> Option<(String, String)> {
+            match ty {
+                $( $name => Some((<$T as async_graphql::InputType>::type_name().to_string(), <$In as async_graphql::InputType>::type_name().to_string())), )*
+                _ => None,
+            }
+        }
+    };
+}
+
+#[allow(non_snake_case)]
+mod numprobe {
+    use super::*;
+    num_schema!(
+        ("i8", i8, PI8, InI8),
+        ("i16", i16, PI16, InI16),
+        ("i32", i32, PI32, InI32),
+        ("i64", i64, PI64, InI64),
+        ("isize", isize, PIsize, InIsize),
+        ("u8", u8, PU8, InU8),
+        ("u16", u16, PU16, InU16),
+        ("u32", u32, PU32, InU32),
+        ("u64", u64, PU64, InU64),
+        ("usize", usize, PUsize, InUsize),
+        ("NonZeroI8", NonZeroI8, PNzI8, InNzI8),
+        ("NonZeroI16", NonZeroI16, PNzI16, InNzI16),
+        ("NonZeroI32", NonZeroI32, PNzI32, InNzI32),
+        ("NonZeroI64", NonZeroI64, PNzI64, InNzI64),
+        ("NonZeroIsize", NonZeroIsize, PNzIsize, InNzIsize),
+        ("NonZeroU8", NonZeroU8, PNzU8, InNzU8),
+        ("NonZeroU16", NonZeroU16, PNzU16, InNzU16),
+        ("NonZeroU32", NonZeroU32, PNzU32, InNzU32),
+        ("NonZeroU64", NonZeroU64, PNzU64, InNzU64),
+        ("NonZeroUsize", NonZeroUsize, PNzUsize, InNzUsize),
+        ("f32", f32, PF32, InF32),
+        ("f64", f64, PF64, InF64),
+        ("ID", ID, PId, InId),
+    );
+    pub type NSch = Schema<NQ, async_graphql::EmptyMutation, async_graphql::EmptySubscription>;
+    pub fn num_schema() -> NSch {
+        Schema::build(NQ, async_graphql::EmptyMutation, async_graphql::EmptySubscription).finish()
+    }
+    pub fn types() -> &'static [&'static str] {
+        NUM_TYPES
+    }
+    pub fn gql(ty: &str) -> Option<(String, String)> {
+        num_gql(ty)
+    }
+}
+
+thread_local! {
+    static NUM_SCHEMA: numprobe::NSch = numprobe::num_schema();
+}
+
+/// `(num TYPE POS VIA "text")`: the number text at a position of type TYPE.
+///   VIA = lit   the text is spliced into the document as the argument value
+///       | var   the text is spliced into a JSON request body as the value of `$v`; the body goes
+///               through `receive_body` (a body that does not decode is answered `err`)
+///   → (ok "shown") | ok (null) | err | …
+fn run_num(a: &[Sexp]) -> Option<Sexp> {
+    let ty = a.first()?.as_atom()?;
+    let pos = a.get(1)?.as_atom()?;
+    let via = a.get(2)?.as_atom()?;
+    let text = a.get(3)?.as_str()?;
+    let (scalar, inobj) = numprobe::gql(ty)?;
+    let lit = match via {
+        "lit" => true,
+        "var" => false,
+        _ => return None,
+    };
+    let (call, vty, vjson) = match pos {
+        "arg" => (if lit { format!("a(v:{text})") } else { "a(v:$v)".into() }, scalar.clone(), text.to_string()),
+        "list" => (if lit { format!("l(v:[{text}])") } else { "l(v:$v)".into() }, format!("[{scalar}!]"), format!("[{text}]")),
+        "obj" => (if lit { format!("o(v:{{f:{text}}})") } else { "o(v:$v)".into() }, inobj.clone(), format!("{{\"f\":{text}}}")),
+        _ => return None,
+    };
+    let req = if lit {
+        Request::new(format!("{{ r: {ty} {{ x: {call} }} }}"))
+    } else {
+        let q = format!("query($v:{vty}){{ r: {ty} {{ x: {call} }} }}");
+        let body = format!("{{\"query\":{},\"variables\":{{\"v\":{vjson}}}}}", serde_json::to_string(&q).ok()?);
+        match run_budget(receive_body(Some("application/json"), body.as_bytes(), MultipartOptions::default())) {
+            Some(Ok(r)) => r,
+            Some(Err(_)) => return Some(atom("err")),
+            None => return Some(timeout()),
+        }
+    };
+    let resp = NUM_SCHEMA.with(|s| run_budget(s.execute(req)));
+    let Some(resp) = resp else { return Some(timeout()) };
+    if !resp.errors.is_empty() {
+        return Some(atom("err"));
+    }
+    let v = serde_json::to_value(&resp.data).unwrap_or(serde_json::Value::Null);
+    Some(match v.get("r").and_then(|r| r.get("x")).and_then(|x| x.as_str()) {
+        Some(s) => node("ok", vec![st(s)]),
+        None => atom("ok"),
+    })
+}
+
+fn run_numtypes() -> Option<Sexp> {
+    // the probe schema must build, and name every type it probes
+    NUM_SCHEMA.with(|_| ());
+    Some(node("types", numprobe::types().iter().map(|t| st(*t)).collect()))
+}
+
 // ------------------------------------------------------------------ worker side
 
 fn run_in_worker(case: &Sexp) -> Sexp {
     let bad = || node("bad-case", vec![]);
     let r = match case.tag() {
+        Some("num") => run_num(case.args()),
+        Some("numtypes") => run_numtypes(),
         Some("marker") => run_marker(case.args()),
         Some("doc") => run_doc(case.args()),
         Some("body") => run_body(case.args()),
@@ -1196,8 +1383,145 @@ fn gen_transport(rng: &mut Rng, dist: &mut Dist) -> Sexp {
     }
 }
 
+// ---- numbers
+
+fn pow2(k: u32) -> i128 {
+    1i128 << k
+}
+
+const NUM_SPECIALS: &[&str] = &[
+    "0", "-0", "1", "-1", "-9223372036854775808", "-9223372036854775809", "9223372036854775807", "9223372036854775808", "18446744073709551615",
+    "18446744073709551616", "-18446744073709551615", "-18446744073709551616", "55340232221128654848", "340282366920938463463374607431768211455",
+    "340282366920938463463374607431768211456", "10000000000000000000", "100000000000000000000", "100000000000000000000000000000000000000",
+    "1000000000000000000000000000000000000000", "340282346638528859811704183484516925440", "340282356779733661637539395458142568448",
+    "9007199254740992", "9007199254740993", "16777216", "16777217", "123456789012345678901234567890",
+];
+
+const NUM_EXPONENTS: &[&str] = &[
+    "1e400", "-1e400", "1e-400", "-1e-400", "1E400", "1e+400", "1e308", "1.8e308", "-1.8e308", "1.7976931348623157e308", "1.7976931348623159e308", "1e309",
+    "4.9e-324", "2.4e-324", "1e-324", "2.2250738585072014e-308", "1e39", "3.5e38", "-3.5e38", "3.4028235e38", "1e-46", "1e19", "1.8446744073709552e19",
+    "9.223372036854775807e18", "1e0", "1e1", "65536e0", "6.5536e4", "655.36e2", "0e0", "0e999999", "0e-999999", "1e999999999", "-1e999999999", "1e-999999999",
+    "1e18446744073709551616", "1e-18446744073709551616", "0.1e1", "1e00000000000000000001", "1e2147483648", "1e-2147483649", "1e9223372036854775808",
+];
+
+const NUM_FRACTIONS: &[&str] = &[
+    "1.0", "0.0", "-0.0", "-0e0", "65536.0", "65535.0", "0.5", "-1.5", "255.0", "256.0", "4294967296.0", "1.0000000000000002", "0.1", "1.5e0", "-128.0",
+    "9223372036854775807.0", "18446744073709551615.0", "18446744073709551616.0", "0.99999999999999999999", "1.00000000000000000000000000000000000001",
+    "0.000000000000000000000000000000000000000000000000000000000000001",
+];
+
+const NUM_SPELLINGS: &[&str] = &[
+    "NaN", "nan", "NAN", "-NaN", "Infinity", "-Infinity", "+Infinity", "infinity", "inf", "-inf", "+Inf", "Inf", "\"NaN\"", "\"Infinity\"", "\"-Infinity\"",
+    "\"65536\"", "\"1\"", "\"0\"", "\"1e400\"", "\"\"", "+1", "+0", "--1", "-+1", "0x10", "0X10", "0b1", "0o7", "1_000", "01", "-01", "00", "-00", ".5", "-.5",
+    "1.", "1.e1", "1e", "1e+", "1e-", "-", "+", "1f", "1L", "1n", "1u8", "1i64", "\u{661}\u{662}", "\u{ff11}", "1,0", "1 0", "null", "true", "false", "[]",
+    "[1]", "[[1]]", "{}", "{f:1}", "{\"f\":1}", "1e1.5", "0x1p3", "1/0", "\u{221e}", "1e\u{0}", "1\u{0}", "- 1", "1e 5", "$v", "$nope", "E", "e1", "_1",
+];
+
+fn long_digits(rng: &mut Rng, o: &Opts, dist: &mut Dist) -> String {
+    let big = if o.tier == "thorough" { rng.chance(1, 6) } else { rng.chance(1, 10) };
+    let len = if big { 100_000 } else { *rng.pick(&[1000usize, 1000, 10_000]) };
+    dist.hit(&format!("num_long_{len}_digits"));
+    let body: String = match rng.below(4) {
+        0 => "9".repeat(len),
+        1 => "1".repeat(len),
+        2 => format!("1{}", "0".repeat(len - 1)),
+        _ => (0..len).map(|i| char::from(b'0' + if i == 0 { 1 + rng.below(9) as u8 } else { rng.below(10) as u8 })).collect(),
+    };
+    let sign = if rng.chance(1, 3) { "-" } else { "" };
+    match rng.below(8) {
+        0 => format!("{sign}{body}.5"),
+        1 => format!("{sign}{body}e5"),
+        2 => format!("{sign}0.{body}"),
+        3 => format!("{sign}1e{body}"),
+        4 => format!("{sign}1e-{body}"),
+        5 => format!("{sign}0{body}"),
+        _ => format!("{sign}{body}"),
+    }
+}
+
+fn hostile_number(rng: &mut Rng, o: &Opts, dist: &mut Dist) -> String {
+    match rng.below(20) {
+        0..=6 => {
+            dist.hit("num_pow2_boundary");
+            let k = if rng.chance(1, 12) { 65 + rng.below(61) as u32 } else { rng.below(65) as u32 };
+            let v = pow2(k) + rng.range(-1, 1) as i128;
+            (if rng.chance(1, 3) { -v } else { v }).to_string()
+        }
+        7..=9 => {
+            dist.hit("num_multiple_of_2_8_16_32");
+            let w = *rng.pick(&[8u32, 16, 32]);
+            let ms: &[i128] = &[1, 2, 3, 127, 128, 255, 256, 257, 32767, 32768, 65535, 65536, 65537, 1 << 24, 1 << 31, (1 << 32) - 1, 1 << 32, (1 << 32) + 1];
+            let m = if rng.chance(1, 3) { 1 + rng.below(1 << 20) as i128 } else { *rng.pick(ms) };
+            let v = m * pow2(w) + if rng.chance(1, 6) { rng.range(-1, 1) as i128 } else { 0 };
+            (if rng.chance(1, 5) { -v } else { v }).to_string()
+        }
+        10 | 11 => {
+            dist.hit("num_special");
+            rng.pick(NUM_SPECIALS).to_string()
+        }
+        12 | 13 => {
+            dist.hit("num_exponent_form");
+            rng.pick(NUM_EXPONENTS).to_string()
+        }
+        14 => {
+            dist.hit("num_fraction_form");
+            rng.pick(NUM_FRACTIONS).to_string()
+        }
+        15 => long_digits(rng, o, dist),
+        16 | 17 => {
+            dist.hit("num_spelling");
+            rng.pick(NUM_SPELLINGS).to_string()
+        }
+        _ => {
+            dist.hit("num_random");
+            match rng.below(4) {
+                0 => rng.next_u64().to_string(),
+                1 => (rng.next_u64() as i64).to_string(),
+                2 => (((rng.next_u64() as i128) << 8) + rng.below(256) as i128).to_string(),
+                _ => (rng.range(-70000, 70000)).to_string(),
+            }
+        }
+    }
+}
+
+/// the deterministic head of the stream: the probed types, then for every type the values at
+/// which a cast of every width wraps to zero (±m·2^w)
+fn num_sweep(i: usize) -> Option<Sexp> {
+    if i == 0 {
+        return Some(node("numtypes", vec![]));
+    }
+    let i = i - 1;
+    let types = numprobe::types();
+    let per = 4 * 2 * 2;
+    if i >= types.len() * per {
+        return None;
+    }
+    let ty = types[i / per];
+    let j = i % per;
+    let w = [8u32, 16, 32, 64][j / 4];
+    let m = [1i128, 3][(j / 2) % 2];
+    let v = m * pow2(w) * if j % 2 == 0 { 1 } else { -1 };
+    Some(node("num", vec![atom(ty), atom("arg"), atom(if (i / per + j) % 2 == 0 { "lit" } else { "var" }), st(v.to_string())]))
+}
+
+fn gen_num(rng: &mut Rng, i: usize, o: &Opts, dist: &mut Dist) -> Sexp {
+    if let Some(c) = num_sweep(i) {
+        dist.hit("num_sweep");
+        return c;
+    }
+    let ty = *rng.pick(numprobe::types());
+    let pos = *rng.pick(&["arg", "arg", "list", "obj"]);
+    let via = *rng.pick(&["lit", "var"]);
+    let text = hostile_number(rng, o, dist);
+    dist.hit(&format!("num_type_{ty}"));
+    dist.hit(&format!("num_pos_{pos}"));
+    dist.hit(&format!("num_via_{via}"));
+    node("num", vec![atom(ty), atom(pos), atom(via), st(text)])
+}
+
 fn gen_case(rng: &mut Rng, i: usize, o: &Opts, dist: &mut Dist) -> Sexp {
     match o.stream.as_str() {
+        "numbers" => gen_num(rng, i, o, dist),
         "markers" => gen_marker(rng, dist),
         "docs" => gen_doc(rng, i, o, dist),
         "transport" => gen_transport(rng, dist),
